@@ -259,6 +259,16 @@ def r5_continuation(ctx, rep):
                             for x in src for q in ast.walk(x))
                 ok = ok or (strips and nonempty and split)
     rep.ob("`;` fragments are stripped and empty ones dropped", ok, "", py.nloc(fn))
+    # a line that starts with ! while a literal is open is a comment line (literal text continues at a line starting with &)
+    skips = [e for e in ev if e.kind == "jump" and isinstance(e.node, ast.Continue) and
+             any(c == "in_quote" or c.startswith("in_quote and") for c in e.cond_texts()) and
+             any(isinstance(t, ast.AST) and pol and any(astq.tests_first_char(x, V, "!") or re.search(
+                 r"\.(l?strip)\(\)(\[:1\]|\[0\]) == '!'|\.l?strip\(\)\.startswith\('!'\)", ast.unparse(x)) for x in [t])
+                 for t, pol, _ in e.conds)]
+    rep.ob("comment lines between the lines of a continued literal are skipped", bool(skips),
+           "a line starting with ! inside an open literal is dropped before it can be taken for code" if skips else
+           "while a literal is open, comment recognition is off and nothing skips a line that starts with `!`: a comment line "
+           "between `'abc&` and `&def'` is taken for code and the file is rejected", py.nloc(fn))
     acc = [e for e in ev if e.kind == "assign" and e.target == "linebuffer" and isinstance(e.node, ast.AugAssign) and ast.unparse(e.value) == V]
     acc += [e for e in ev if e.kind == "assign" and e.target == "linebuffer" and ast.unparse(e.value) in (f"linebuffer + {V}",)]
     rep.ob("pieces accumulate in linebuffer", bool(acc), "", py.nloc(fn), nontrivial=False)
